@@ -66,8 +66,17 @@ _op = st.tuples(st.sampled_from(["del", "dup", "swap", "move", "ins_frag", "rep_
                 st.integers(0, 10 ** 6), st.integers(0, 10 ** 6), st.integers(0, 10 ** 6))
 
 
+def _within_digits(spec):
+    # padded layouts write some ticks with up to three leading zeros; a tick of more than five digits would
+    # then be a numeric token of more than 8 digits, i.e. outside the quantifier: such charts keep the
+    # canonical layout
+    big = any(it[0] >= 100_000 for items in spec["tracks"].values() for it in items) or \
+        any(it[0] >= 100_000 for it in spec["sync"]) or any(e[0] >= 100_000 for e in spec["events"])
+    return dict(spec, fmt=0) if big and spec.get("fmt") else spec
+
+
 def strat_mutations(ctx: Ctx):
-    return st.builds(lambda c, ops: {"spec": c["spec"], "ops": [list(o) for o in ops]},
+    return st.builds(lambda c, ops: {"spec": _within_digits(c["spec"]), "ops": [list(o) for o in ops]},
                      G.chart_specs(max_segments=3, max_tracks=2, max_notes=6, max_events=3, max_ts=2,
                                    max_anchors=1, min_tracks=1, min_notes=2,
                                    tempo_values=_small_tempo, max_tick_cap=40_000_000,
